@@ -1919,6 +1919,10 @@ impl Typer {
                         tast::Ty::TRef {
                             elem: Box::new(elem_ty),
                         }
+                    } else if let Some(array_ty) = array_set_result_ty(name.as_str(), &args_tast) {
+                        let result_ty = self.fresh_ty_var();
+                        self.push_constraint(Constraint::TypeEqual(result_ty.clone(), array_ty));
+                        result_ty
                     } else {
                         self.fresh_ty_var()
                     };
@@ -2016,6 +2020,10 @@ impl Typer {
                         tast::Ty::TRef {
                             elem: Box::new(elem_ty),
                         }
+                    } else if let Some(array_ty) = array_set_result_ty(name.as_str(), &args_tast) {
+                        let result_ty = self.fresh_ty_var();
+                        self.push_constraint(Constraint::TypeEqual(result_ty.clone(), array_ty));
+                        result_ty
                     } else {
                         self.fresh_ty_var()
                     };
@@ -3205,6 +3213,16 @@ fn lookup_function_path(genv: &PackageTypeEnv, path: &hir::Path) -> Option<(Stri
             package, full_name
         );
         None
+    }
+}
+
+fn array_set_result_ty(name: &str, args: &[tast::Expr]) -> Option<tast::Ty> {
+    if name != "array_set" || args.len() != 3 {
+        return None;
+    }
+    match args[0].get_ty() {
+        tast::Ty::TArray { len, .. } if len == tast::ARRAY_WILDCARD_LEN => None,
+        ty => Some(ty),
     }
 }
 
